@@ -30,3 +30,16 @@ void harness(void) { VL_CALL(KSI_VerificationRule_AggregationChainHashAlgorithmV
 #ifdef VL_MODE_SHAPE
 void harness(void) { VL_CALL(KSI_VerificationRule_AggregationHashChainIndexConsistency) VL_REACH_FAIL(KSI_VER_ERR_INT_10, "FAIL INT-10") }
 #endif
+#ifdef VL_MODE_CONS
+void harness(void) {
+	__CPROVER_assert(VR_H_IN0 == 1 && VR_H_AGGOUT == 6 && VR_H_NEW1 == 7 && VR_H_NEW2 == 8, "slot numbers used in the loop invariant");
+	VL_CALL(KSI_VerificationRule_AggregationHashChainConsistency) VL_REACH_FAIL(KSI_VER_ERR_INT_1, "FAIL INT-01")
+	if (res == KSI_OK && result->resultCode == KSI_VER_RES_OK && g_vl_calls == 0) REACH("OK for a signature without chains");
+}
+#endif
+#ifdef VL_MODE_IDX
+void harness(void) { VL_CALL(KSI_VerificationRule_AggregationHashChainIndexContinuation) VL_REACH_FAIL(KSI_VER_ERR_INT_12, "FAIL INT-12")
+	if (res == KSI_OK && result->resultCode == KSI_VER_RES_OK && g_vl_calls >= 2 && g_vi_calls > 2) REACH("OK with more than two common index positions");
+	if (res == KSI_OK && result->resultCode == KSI_VER_RES_FAIL && g_vi_calls > 0) REACH("FAIL INT-12 on an index element");
+}
+#endif
